@@ -121,10 +121,14 @@ func ProcessAcraStructs(ctx context.Context, inBuffer []byte, outBuffer []byte, 
 				if err != nil {
 					return inBuffer, err
 				}
-				outBuffer = append(outBuffer[:outIndex], processedData...)
-				outIndex += len(processedData)
-				inIndex += acrastructLength
-				continue
+				// candidate returned as is wasn't AcraStruct (or can't be decrypted): don't skip it as a whole
+				// because real AcraStruct may start inside of it, for example after extra TagSymbol
+				if !bytes.Equal(processedData, inBuffer[inIndex:endIndex]) {
+					outBuffer = append(outBuffer[:outIndex], processedData...)
+					outIndex += len(processedData)
+					inIndex += acrastructLength
+					continue
+				}
 			}
 		}
 		// write current read byte to not process him in next iteration
